@@ -15,9 +15,10 @@ Open Scope Z_scope.
 (* ---- programs followed by programs ---- *)
 Lemma compile_papp p q : compile_p (papp p q) = compile_p p ++ compile_p q.
 Proof.
-  induction p as [|s r IH|c a _ r IH|c a _ eb _ r IH|c a _ r IH]; cbn [papp compile_p].
+  induction p as [|s r IH|c a _ r IH|c a _ eb _ r IH|c a _ r IH|xoff r IH]; cbn [papp compile_p].
   - reflexivity.
   - rewrite IH, app_assoc. reflexivity.
+  - rewrite IH. rewrite <- !app_assoc. reflexivity.
   - rewrite IH. rewrite <- !app_assoc. reflexivity.
   - rewrite IH. rewrite <- !app_assoc. reflexivity.
   - rewrite IH. rewrite <- !app_assoc. reflexivity.
@@ -26,7 +27,7 @@ Qed.
 Lemma items_papp en props p q : forall pc,
   items en props pc (papp p q) = items en props pc p ++ items en props (pc + zlen (compile_p p)) q.
 Proof.
-  induction p as [|s r IH|c a _ r IH|c a _ eb _ r IH|c a _ r IH]; intros pc; cbn [papp items compile_p app].
+  induction p as [|s r IH|c a _ r IH|c a _ eb _ r IH|c a _ r IH|xoff r IH]; intros pc; cbn [papp items compile_p app].
   - f_equal. cbn. lia.
   - rewrite IH, zlen_app. f_equal. f_equal. f_equal. lia.
   - rewrite IH, !zlen_app. change (zlen (jz (3 + zlen (compile_p a)))) with 3. f_equal. f_equal. f_equal. lia.
@@ -35,6 +36,19 @@ Proof.
   - rewrite IH, !zlen_app. change (zlen (jz (3 + zlen (compile_p a) + 2))) with 3.
     rewrite !zlen_cons.
     f_equal. f_equal. f_equal. lia.
+  - rewrite IH, zlen_app. change (zlen (jmp xoff)) with 3. f_equal. f_equal. f_equal. lia.
+Qed.
+
+(* the desugared programs have no exit repeat *)
+Lemma exit_free_papp p q : exit_free p -> exit_free q -> exit_free (papp p q).
+Proof.
+  induction p as [|s r IH|c a _ r IH|c a _ eb _ r IH|c a _ r IH|xoff r IH]; cbn [papp exit_free]; intros Hp Hq;
+    try tauto; repeat split; try tauto; apply IH; tauto.
+Qed.
+Lemma exit_free_desugar q : exit_free (desugar q).
+Proof.
+  induction q as [|s r IH|c a IHa r IH|c a IHa eb IHe r IH|c a IHa r IH|down v lo hi a IHa r IH]; cbn [desugar exit_free]; try tauto.
+  split; [|exact IH]. apply exit_free_papp; [exact IHa | cbn [exit_free]; exact I].
 Qed.
 
 (* ---- the pattern of a counting loop ---- *)
@@ -341,7 +355,8 @@ Proof.
   rewrite zlen_app, zlen_cons, zlen_nil in *.
   apply code_at_app in Hc. destruct Hc as [Hcb Hce]. pose proof (zlen_nonneg (compile_p p)).
   assert (Hsi : sinv off m) by (unfold sinv; rewrite Hnil; constructor).
-  destruct (exec_p any_cond en props p Hwf d off (zlen (compile_p p) + (1 + 0)) off (1 + fuel)%nat r m Hag Hst Hsi Hcb ltac:(lia) ltac:(lia)) as [r1 E1].
+  assert (Hxk : exits_ok None p) by (apply exit_free_ok; apply exit_free_desugar).
+  destruct (exec_p any_cond en props p Hwf None Hxk d off (zlen (compile_p p) + (1 + 0)) off (1 + fuel)%nat r m Hag Hst Hsi Hcb ltac:(lia) ltac:(lia)) as [r1 E1].
   rewrite E1. set (m1 := after_p en props off p m).
   assert (Hs : step d pexit r1 m1 = Ok (pexit + 1, r1, add_stmt m1 pexit (Call "exit" pexit None true false false))).
   { apply (step_1 d pexit r1 m1 (b 1) "ExitOpcode" "" OExit _ Hce); [vm_compute; reflexivity | reflexivity | intros; reflexivity]. }
@@ -352,12 +367,12 @@ Proof.
   assert (Hf : f_stmts (m_fn (add_stmt m1 pexit (Call "exit" pexit None true false false))) = flats (items en props off p) ++ [exit_st]).
   { unfold add_stmt. cbn [m_fn f_stmts set_stmts]. subst m1. rewrite Hsts, Hnil. reflexivity. }
   rewrite Hf.
-  assert (Hwp0 : @wp any_cond off pexit (items en props off p)) by (apply items_wp; exact Hwf).
+  assert (Hwp0 : @wp any_cond off pexit (items en props off p)) by (apply (items_wp _ _ _ _ _ None); [exact Hwf | exact Hxk]).
   assert (Hwp : @wp any_cond off (pexit + 1) (items en props off p ++ [IPlain exit_st])).
   { apply (wp_app off pexit); [exact Hwp0|].
     apply wp_plain; [reflexivity | cbn [pos_of exit_st]; lia | apply wp_nil; cbn [pos_of exit_st]; lia]. }
   assert (Hxd : exits_done (items en props off p ++ [IPlain exit_st]) = true)
-    by (rewrite exits_done_app, (proj2 (items_no_exit en props p off 0)); reflexivity).
+    by (rewrite exits_done_app, (items_exits_done en props p off Hxk); reflexivity).
   unfold detect.
   destruct (depth_le_count_any any_cond _ _ _ Hwp) as [H1 H2].
   pose proof (condition_detect_nest (S (S (stmts_count (flats (items en props off p) ++ [exit_st])))) None
